@@ -19,10 +19,19 @@
 // request is inside any node's handler chain; a forwarding loop (only possible on a broken tree) is cut by the
 // harness middleware after 6 inbound requests, when "more than one hop" is already established.
 //
+// Request histories (history.go): besides the single-request cases (fresh cluster per case), sequences of 2 (quick) /
+// 2-3 (thorough) requests are sent to the SAME receiving node of ONE long-lived cluster of 2-3 nodes, with one
+// membership/registry transition between consecutive requests (peer unhealthy / failed / healthy again, writer
+// promoted or demoted, peer unregistered / registered, recorded role changed, peer restarted with another role), applied
+// through the registry's production mutation paths; every request is judged against the cluster as it stands then.
+// This covers routing state carried from one request to the next (cached targets, negative caches, rotation state).
+//
 // Oracle (judge): incapable-node-processed, forwarded-more-than-once, processed-more-than-once,
 // capable-receiver-did-not-serve, success-without-processing / error-but-processed, not-forwarded-to-capable-peer.
 // Violations are minimised (drop header, drop peers, reset attributes) to a class signature
-// "<oracle>|<kind>|hdr=..|recv=..|peers=[..]". Mutations and candidate fixes are applied with an overlay
+// "<oracle>|<kind>|hdr=..|recv=..|peers=[..]"; a failure that needs a history (the last request alone, on a fresh cluster
+// in the final state, does not fail) to "<oracle>|history|<req>;<transition>(peerK[,role]);<req>|hdr=absent|recv=..|peers=[..]"
+// (peers = the cluster before the first request). Mutations and candidate fixes are applied with an overlay
 // "replace" (see BUILDERS.md), never by editing /repo.
 package main
 
@@ -1705,6 +1714,14 @@ func main() {
 
 	sp := spaces(run.Quick())
 	hsp := histSpaces(run.Quick())
+	// debugging aid (the run is then reported as not exhaustive): VERIF_C30_ONLY=hist|single
+	only := os.Getenv("VERIF_C30_ONLY")
+	switch only {
+	case "hist":
+		sp = nil
+	case "single":
+		hsp = nil
+	}
 	var items []cfgItem
 	// history configurations first: they are the larger work items
 	var totalHist, totalHistReq int64
@@ -1786,7 +1803,7 @@ func main() {
 			fmt.Printf("replay %d: %s (complete=%v)\n", i+1, rh, okRun)
 			failed := false
 			for _, r := range res {
-				fmt.Printf("  request %d %s on %s -> status=%d forwards=%d processed=%v\n", r.Step+1, kinds[r.Case.Kind].Name, r.Case, r.Obs.Status, r.Obs.Forwards, r.Obs.Proc)
+				fmt.Printf("  step %d: request on the cluster as it stands now: %s -> status=%d forwards=%d processed=%v\n", r.Step+1, r.Case, r.Obs.Status, r.Obs.Forwards, r.Obs.Proc)
 				for _, f := range r.Findings {
 					fmt.Printf("    %s: %s\n", f.Kind, f.Desc)
 					failed = true
@@ -2073,7 +2090,7 @@ func main() {
 		histRows = append(histRows, map[string]any{"space": s.Name, "nodes": s.N, "requests_per_history": s.Len, "what": s.Desc, "configurations": s.configs,
 			"request_kinds": kn, "transitions": tn, "histories": s.histories, "histories_executed": e, "requests": s.requests})
 	}
-	exhaustive := !timeUp.Load() && evals.Load()-histReqs.Load()+indeterminate.Load() == totalCases && indeterminate.Load() == 0 &&
+	exhaustive := only == "" && !timeUp.Load() && evals.Load()-histReqs.Load()+indeterminate.Load() == totalCases && indeterminate.Load() == 0 &&
 		histDone.Load() == totalHist && histReqs.Load() == totalHistReq && histIndet.Load() == 0
 	run.Coverage["evaluations"] = evals.Load()
 	run.Coverage["distinct_nontrivial"] = nontriv.Load()
